@@ -636,6 +636,19 @@ static int cmp_eval_half(int shape, int op, Opd l, Opd r) {
   const int va = l.v;
   return apply_cmp(op, va, cb) ? 1 : 0;
 }
+// Operands whose static type is an Optional SUBCLASS (table entries): Entry<int,1> against Entry<int,2>
+// (mixed = false) or Optional<int> against Entry<int,2> (mixed = true). Same reference order.
+static int cmp_eval_entry(bool mixed, int shape, int op, Opd l, Opd r) {
+  if ((shape == 1 && !r.has) || (shape == 2 && !l.has)) return -1;
+  nop::Entry<int, 1> ea; nop::Optional<int> oa; nop::Entry<int, 2> eb;
+  if (l.has) { ea = l.v; oa = l.v; }
+  if (r.has) eb = r.v;
+  const nop::Entry<int, 1>& ca = ea; const nop::Optional<int>& co = oa; const nop::Entry<int, 2>& cb = eb;
+  if (shape == 0) return (mixed ? apply_cmp(op, co, cb) : apply_cmp(op, ca, cb)) ? 1 : 0;
+  if (shape == 1) { const int vb = r.v; return apply_cmp(op, ca, vb) ? 1 : 0; }
+  const int va = l.v;
+  return apply_cmp(op, va, cb) ? 1 : 0;
+}
 static bool ref_cmp_half(int op, Opd l, Opd r) {
   const double lv = l.v, rv = r.v + 0.5;
   const int c = l.has != r.has ? (l.has ? 1 : -1) : (!l.has ? 0 : (lv < rv ? -1 : (lv > rv ? 1 : 0)));
@@ -653,6 +666,8 @@ static std::string cmp_check(const std::string& type, int shape, int op, Opd l, 
   else if (type == "tracked") got = cmp_eval<T1, T1>(shape, op, l, r);
   else if (type == "int-long") got = cmp_eval<int, long>(shape, op, l, r);
   else if (type == "int-half") got = cmp_eval_half(shape, op, l, r);
+  else if (type == "entry") got = cmp_eval_entry(false, shape, op, l, r);
+  else if (type == "opt-entry") got = cmp_eval_entry(true, shape, op, l, r);
   else return "skip";
   if (got < 0) return "skip";
   std::string m;
@@ -819,7 +834,7 @@ int main(int argc, char** argv) {
 
   // ---- PART B ----
   if (a.shard == 0) {
-    for (const char* type : {"int", "tracked", "int-long", "int-half"}) {
+    for (const char* type : {"int", "tracked", "int-long", "int-half", "entry", "opt-entry"}) {
       long cnt = 0;
       for (int shape = 0; shape < 3; shape++)
         for (int op = 0; op < 6; op++)
